@@ -64,6 +64,9 @@ def instruction(ops=None, aligned_only=False, mem_base=8):
         if op in rv32.LOAD_OPS:
             w = rv32.LOAD_W[op]
             if aligned_only:
+                if draw(st.integers(0, 6)) == 0:
+                    # x0 + negative offset: the effective address is a NEGATIVE number before it is reduced modulo 2^32
+                    return [op, draw(rd), 0, -w * draw(st.integers(1, 32 // w))]
                 return [op, draw(rd), mem_base, w * draw(st.integers(0, draw(st.sampled_from([8, 16, 48])) // w))]
             if draw(st.integers(0, 3)):
                 return [op, draw(rd), draw(st.sampled_from([8, 8, 8, 2, 3])), draw(st.integers(-8, 40))]
@@ -71,6 +74,8 @@ def instruction(ops=None, aligned_only=False, mem_base=8):
         if op in rv32.STORE_OPS:
             w = rv32.STORE_W[op]
             if aligned_only:
+                if draw(st.integers(0, 6)) == 0:
+                    return [op, 0, draw(reg), -w * draw(st.integers(1, 32 // w))]
                 return [op, mem_base, draw(reg), w * draw(st.integers(0, draw(st.sampled_from([8, 16, 48])) // w))]
             if draw(st.integers(0, 3)):
                 return [op, draw(st.sampled_from([8, 8, 8, 2, 3])), draw(reg), draw(st.integers(-8, 40))]
@@ -91,9 +96,23 @@ def instruction(ops=None, aligned_only=False, mem_base=8):
 @st.composite
 def template(draw, aligned_only=False):
     """Structured blocks: counted loop, call/return, print / exit sequences, load-use, store-load."""
-    kind = draw(st.sampled_from(["loop", "call", "print", "exit", "loaduse", "storeload", "printstr", "jalrwrap", "rmw", "bigloop", "nested"]))
+    kind = draw(st.sampled_from(["loop", "call", "print", "exit", "loaduse", "storeload", "printstr", "jalrwrap", "rmw", "bigloop", "nested", "negalias"]))
     body_ops = [o for o in rv32.ALL_OPS if o not in rv32.BRANCH_OPS + ["jal", "jalr", "ecall"]]
     body = lambda n: draw(st.lists(instruction(body_ops, aligned_only), min_size=0, max_size=n))  # noqa: E731
+    if kind == "negalias":
+        # the SAME load twice with a store to that location in between; the load names it by a negative number
+        # (x0 - k), the store either likewise or through a register holding the wrapped address 2^32 - k
+        w = draw(st.sampled_from([4, 4, 2, 1]))
+        k = w * draw(st.integers(1, 8)) if aligned_only or draw(st.booleans()) else draw(st.integers(1, 16))
+        lop = draw(st.sampled_from({4: ["lw"], 2: ["lh", "lhu"], 1: ["lb", "lbu"]}[w]))
+        sop = {4: "sw", 2: "sh", 1: "sb"}[draw(st.sampled_from([w, w, 1 if aligned_only else 4]))]
+        rs = draw(st.sampled_from([1, 2, 3, 5]))
+        seq = [[lop, draw(st.sampled_from([9, 11, 12])), 0, -k]]
+        if draw(st.booleans()):
+            seq.append([sop, 0, rs, -k])
+        else:
+            seq += [["addi", 13, 0, -k], [sop, 13, rs, 0]]
+        return seq + [[lop, draw(st.sampled_from([9, 14, 15])), 0, -k]]
     if kind == "nested":
         # inner loop smaller than a cache set, outer loop larger: re-use followed by new blocks (separates LRU from PLRU)
         b1 = [i for i in draw(st.lists(instruction(body_ops, aligned_only), min_size=0, max_size=2)) if dest(i) not in (6, 7)]
